@@ -124,12 +124,65 @@ func nonConstReturns(fn *ssa.Function, i int) []*ssa.Return {
 	var out []*ssa.Return
 	for _, b := range fn.Blocks {
 		if r, ok := b.Instrs[len(b.Instrs)-1].(*ssa.Return); ok && i < len(r.Results) {
-			if _, isC := r.Results[i].(*ssa.Const); !isC {
+			if mayBeNonZero(fn, r.Results[i], b, b, 0) {
 				out = append(out, r)
 			}
 		}
 	}
 	return out
+}
+
+// mayBeNonZero: can v, as it flows along the edge from -> to (from == to: at
+// the block itself), be something else than the nil/zero constant?  A value
+// that the path has just compared equal to nil ("if x == nil { return }" with
+// a named result) cannot.
+func mayBeNonZero(fn *ssa.Function, v ssa.Value, from, to *ssa.BasicBlock, d int) bool {
+	if c, ok := v.(*ssa.Const); ok {
+		_ = c
+		return false
+	}
+	if d > 6 {
+		return true
+	}
+	if ph, ok := v.(*ssa.Phi); ok && (ph.Block() == to || ph.Block() == from) {
+		for i, e := range ph.Edges {
+			if mayBeNonZero(fn, e, ph.Block().Preds[i], ph.Block(), d+1) {
+				return true
+			}
+		}
+		return false
+	}
+	isZero := func(cd Cond) (bool, bool) {
+		if cd.X == nil || cd.Y == nil || (cd.Op != token.EQL && cd.Op != token.NEQ) {
+			return false, false
+		}
+		for _, pr := range [][2]ssa.Value{{cd.X, cd.Y}, {cd.Y, cd.X}} {
+			if stripConv(pr[0]) != stripConv(v) {
+				continue
+			}
+			if k, isk := constInt(pr[1]); isNilConst(pr[1]) || (isk && k == 0) {
+				return true, cd.Op == token.EQL
+			}
+		}
+		return false, false
+	}
+	if from != to {
+		for _, br := range branches(fn) {
+			if br.Block != from || br.True == br.False {
+				continue
+			}
+			if ok, pol := isZero(br.Cond); ok {
+				succ := br.False
+				if pol {
+					succ = br.True
+				}
+				if succ == to {
+					return false
+				}
+			}
+		}
+	}
+	return !guardedBy(fn, from, isZero)
 }
 
 // SubjectGuard builds, for a subject value, the matcher of the comparisons
@@ -330,18 +383,12 @@ func guardedByX(fn *ssa.Function, at *ssa.BasicBlock, mk CondMatcherX, sub Subst
 				if !ok || idx >= len(r.Results) {
 					continue
 				}
-				inClass := true
-				res := hs.resolve(r.Results[idx])
-				if bv, isb := constBool(res); isb {
-					inClass = (c.class == 1 && bv) || (c.class == 0 && !bv)
-				} else if k, isk := constInt(res); isk {
-					inClass = c.class == 2 && k == 0
-				}
-				if !inClass {
+				inCls, holds := resultImplies(h, r.Results[idx], c.class, b, b, mk, hs, depth+1, 0)
+				if !inCls {
 					continue
 				}
 				n++
-				if !guardedByX(h, b, mk, hs, depth+1) {
+				if !holds {
 					all = false
 				}
 			}
@@ -351,4 +398,102 @@ func guardedByX(fn *ssa.Function, at *ssa.BasicBlock, mk CondMatcherX, sub Subst
 		}
 	}
 	return false
+}
+
+// guardedUp: the block at of scope sc is guarded (guardedByX) inside its own
+// function, or the call through which the scope runs is guarded in the
+// enclosing scope, and so on up to the owner.
+func guardedUp(scopes []Scope, sc Scope, at *ssa.BasicBlock, mk CondMatcherX) bool {
+	for i := 0; i < 4; i++ {
+		if guardedByX(sc.Fn, at, mk, sc.S, 0) {
+			return true
+		}
+		if sc.Via == nil {
+			return false
+		}
+		at = sc.Via.Block()
+		parent := sc.Via.Parent()
+		found := false
+		for _, s2 := range scopes {
+			if s2.Fn == parent {
+				sc, found = s2, true
+				break
+			}
+		}
+		if !found {
+			return false
+		}
+	}
+	return false
+}
+
+// resultImplies: the value v, returned by helper h along the edge from -> to
+// (from == to: at the return's own block), (a) can belong to the class the
+// caller tests (1: true, 0: false, 2: status OK) and (b) if it does, the guard
+// matched by mk holds.  A constant belongs to its class and needs the guard on
+// its path; a comparison that *is* the guard implies it by its own truth
+// ("return ip.Inum == ino && ip.Gen == gen"); a phi is judged edge by edge.
+func resultImplies(h *ssa.Function, v ssa.Value, class int, from, to *ssa.BasicBlock, mk CondMatcherX, hs Subst, depth, d int) (bool, bool) {
+	res := hs.resolve(v)
+	if bv, isb := constBool(res); isb {
+		in := (class == 1 && bv) || (class == 0 && !bv)
+		return in, in && edgeGuardedX(h, from, to, mk, hs, depth)
+	}
+	if k, isk := constInt(res); isk {
+		in := class == 2 && k == 0
+		return in, in && edgeGuardedX(h, from, to, mk, hs, depth)
+	}
+	if d > 4 {
+		return true, edgeGuardedX(h, from, to, mk, hs, depth)
+	}
+	switch x := v.(type) {
+	case *ssa.Phi:
+		if x.Block() == to || x.Block() == from {
+			anyIn, all := false, true
+			for i, e := range x.Edges {
+				in, ok := resultImplies(h, e, class, x.Block().Preds[i], x.Block(), mk, hs, depth, d+1)
+				if in {
+					anyIn = true
+					if !ok {
+						all = false
+					}
+				}
+			}
+			return anyIn, anyIn && all
+		}
+	case *ssa.UnOp:
+		if x.Op == token.NOT && class != 2 {
+			return resultImplies(h, x.X, 1-class, from, to, mk, hs, depth, d+1)
+		}
+	case *ssa.BinOp:
+		if class != 2 {
+			if ok, pol := mk(hs)(Cond{Op: x.Op, X: x.X, Y: x.Y}); ok && pol == (class == 1) {
+				return true, true
+			}
+		}
+	}
+	return true, edgeGuardedX(h, from, to, mk, hs, depth)
+}
+
+// edgeGuardedX: the edge from -> to of h is taken only when the guard holds:
+// it is the matching side of the test that ends from, or from itself is
+// guarded.
+func edgeGuardedX(h *ssa.Function, from, to *ssa.BasicBlock, mk CondMatcherX, hs Subst, depth int) bool {
+	if from != to {
+		for _, br := range branches(h) {
+			if br.Block != from || br.True == br.False {
+				continue
+			}
+			if ok, pol := mk(hs)(br.Cond); ok {
+				succ := br.False
+				if pol {
+					succ = br.True
+				}
+				if succ == to {
+					return true
+				}
+			}
+		}
+	}
+	return guardedByX(h, from, mk, hs, depth)
 }
